@@ -30,7 +30,7 @@ type c10Case struct {
 	SizeCls  string // L-1 | L | L+1 | 2L | >>L
 	Decl     string // polling: exact | unknown | lying-small | lying-big
 	Multi    int    // number of packets in a polling payload
-	Layout   string // ws: single | fragments | header-only-64bit ; wt: min | form16 | form64 | header-only-64bit
+	Layout   string // ws: single | fragments | header-only-64bit | deflated (permessage-deflate negotiated, the message sent compressed: a few bytes on the wire) ; wt: min | form16 | form64 | header-only-64bit
 	Frag     int    // ws fragments: size of each fragment (<= L)
 	B64      bool
 	Upgraded bool
@@ -90,7 +90,7 @@ func genC10(rt *rapid.T, known bool, col *Collector) c10Case {
 		c.B64 = c.Path == "jsonp" || rapid.Bool().Draw(rt, "b64")
 		c.Overlap = c.L >= 8 && rapid.IntRange(0, 3).Draw(rt, "overlap") == 0
 	case "ws":
-		c.Layout = rapid.SampledFrom([]string{"single", "single", "fragments", "header-only-64bit"}).Draw(rt, "layout")
+		c.Layout = rapid.SampledFrom([]string{"single", "single", "fragments", "header-only-64bit", "deflated", "deflated"}).Draw(rt, "layout")
 		if c.Layout == "fragments" {
 			c.Frag = int(rapid.Int64Range(1, c.L).Draw(rt, "frag"))
 			if c.Size/int64(c.Frag) > 3000 {
@@ -158,8 +158,12 @@ func runC10(c c10Case) (fail string, stats map[string]bool) {
 	o.SetAllowEIO3(true)
 	o.SetTransports(types.NewSet("polling", "websocket", "webtransport"))
 	o.SetPingInterval(300 * time.Second)
+	if c.Layout == "deflated" {
+		o.SetPerMessageDeflate(&types.PerMessageDeflate{Threshold: 1024})
+	}
 	w := NewWorld(o)
 	defer w.Teardown()
+	w.WSOfferDeflate = c.Layout == "deflated"
 	if c.Other > 0 {
 		// the application reuses its options object for a second server with another limit
 		stats["second-server-built-from-the-same-options-object"] = true
@@ -339,6 +343,7 @@ func runC10(c c10Case) (fail string, stats map[string]bool) {
 				return "", stats
 			}
 			data := bytes.Repeat([]byte("a"), int(c.Size-1))
+			wire := 0 // deflated: payload bytes of the frame on the wire
 			var frags []int
 			if c.Layout == "fragments" {
 				for n := int64(0); n+int64(c.Frag) < c.Size; n += int64(c.Frag) {
@@ -346,7 +351,18 @@ func runC10(c c10Case) (fail string, stats map[string]bool) {
 				}
 				stats["fragmented"] = true
 			}
-			s.wc.SendPacket(Pkt{Type: tMessage, Data: data}, frags)
+			if c.Layout == "deflated" {
+				if !s.wc.Negotiated() {
+					return "harness: permessage-deflate was not negotiated", stats
+				}
+				wire, _ = s.wc.SendPacketDeflatedN(Pkt{Type: tMessage, Data: data})
+				stats["compressed-frame"] = true
+				if over {
+					stats["compressed-frame-inflating-past-the-limit"] = true
+				}
+			} else {
+				s.wc.SendPacket(Pkt{Type: tMessage, Data: data}, frags)
+			}
 			Settle()
 			s.wc.Pump()
 			if m := maxDelivered(); int64(m) > c.L {
@@ -360,6 +376,9 @@ func runC10(c c10Case) (fail string, stats map[string]bool) {
 					return fmt.Sprintf("oversized websocket message (%d > %d, %s): closes=%v connection ended=%v", c.Size, c.L, c.Layout, sr.Closes, s.wc.EOF), stats
 				}
 				stats["connection-terminated"] = true
+			} else if int64(wire) > c.L {
+				// a tiny message whose compressed form is the larger one: a frame above the limit on the wire
+				stats["compressed-form-above-the-limit"] = true
 			} else {
 				if len(sr.Closes) != 0 {
 					return fmt.Sprintf("websocket message of %d bytes within the limit %d terminated the connection: closes %v", c.Size, c.L, sr.Closes), stats
@@ -487,7 +506,7 @@ func TestC10MaxPayload(t *testing.T) {
 			rt.Fatalf("%v: %s", c, clipStr(res.Leak, 1500))
 		}
 	})
-	col.RequireClasses(t, "413", "delivered", "connection-terminated", "header-only", "fragmented", "within-1-of-limit", "path.polling", "path.jsonp", "path.ws", "path.wt", "decl.lying-big", "decl.lying-small", "after-upgrade", "frame-header-split-in-transit", "second-server-built-from-the-same-options-object", "overlapping-a-held-upload")
+	col.RequireClasses(t, "413", "delivered", "connection-terminated", "header-only", "fragmented", "within-1-of-limit", "path.polling", "path.jsonp", "path.ws", "path.wt", "decl.lying-big", "decl.lying-small", "after-upgrade", "frame-header-split-in-transit", "second-server-built-from-the-same-options-object", "overlapping-a-held-upload", "compressed-frame-inflating-past-the-limit")
 }
 
 func TestC10ChunkedFinding(t *testing.T) {
@@ -500,6 +519,26 @@ func TestC10ChunkedFinding(t *testing.T) {
 			res.rethrow()
 			col.Case(c.String(), true, map[string]any{"case": c.String(), "result": fail}, "chunked")
 			demoFinding(t, col, "C10", sigChunkedUnbounded, fail != "", fmt.Sprintf("%v: %s", c, fail))
+		}
+	}
+}
+
+const sigDeflatedUnbounded = "websocket-message-sent-compressed-is-delivered-whatever-it-inflates-to"
+
+// TestC10DeflatedFinding: deterministic demonstration: permessage-deflate configured and negotiated, the client
+// sends one compressed frame of a few dozen bytes that inflates to a message far above the limit.
+func TestC10DeflatedFinding(t *testing.T) {
+	col := NewCollector("TestC10DeflatedFinding", "deterministic: limit 1000, perMessageDeflate configured, websocket session (direct and upgraded, revision 4 and 3) whose client negotiated permessage-deflate and sends one compressed frame that inflates to 1001 / 5000 / 300000 bytes; oracle: nothing above the limit is delivered, the connection is terminated, the bystander is undisturbed. every case is non-trivial").Use(t)
+	for _, rev := range []int{4, 3} {
+		for _, up := range []bool{false, true} {
+			for _, size := range []int64{1001, 5000, 300000} {
+				c := c10Case{L: 1000, Path: "ws", Rev: rev, Size: size, SizeCls: ">>L", Layout: "deflated", Upgraded: up}
+				var fail string
+				res := bubble(t, func() { fail, _ = runC10(c) })
+				res.rethrow()
+				col.Case(c.String(), true, map[string]any{"case": c.String(), "result": fail}, "compressed-frame-inflating-past-the-limit")
+				demoFinding(t, col, "C10", sigDeflatedUnbounded, fail != "", fmt.Sprintf("%v: %s", c, fail))
+			}
 		}
 	}
 }
